@@ -18,5 +18,6 @@ CONSTANTS
   Dev = {"InvocationInversion"}
 INIT Init
 NEXT Next
+VIEW MCView
 INVARIANTS InvocationInvs
 CHECK_DEADLOCK FALSE
